@@ -41,9 +41,96 @@ type tagged struct {
 	f int            // unexported: not part of the JSON form
 }
 
+// named and composite types beyond the plain ones: everything here has an
+// unambiguous JSON form (encoding/json), which is what the canonical form is
+// derived from.
+type (
+	myInt   int32
+	myUint8 uint8
+	myStr   string
+	myBool  bool
+	myFloat float64
+	blob    []byte
+	uuid4   [4]byte
+	inner   struct {
+		N int     `json:"n"`
+		L []myStr `json:"l,omitempty"`
+	}
+	outer struct {
+		In   inner            `json:"in"`
+		P    *inner           `json:"p"`
+		Arr  [2]int8          `json:"arr"`
+		M    map[string]myInt `json:"m,omitempty"`
+		Skip string           `json:"-"`
+		Any  any              `json:"any"`
+	}
+)
+
+func pad4(s string) (a [4]byte) {
+	copy(a[:], s)
+	return a
+}
+
 // build materialises the Go value.
 func (s *spec) build() any {
 	switch s.K {
+	case "bytearray":
+		return pad4(s.S)
+	case "emptybytearray":
+		return [0]byte{}
+	case "namedbytearray":
+		return uuid4(pad4(s.S))
+	case "ptrbytearray":
+		a := pad4(s.S)
+		return &a
+	case "namedbytes":
+		return blob(s.S)
+	case "strslice":
+		out := []string{}
+		for _, k := range s.Kids {
+			out = append(out, k.S)
+		}
+		return out
+	case "floatslice":
+		out := []float64{}
+		for _, k := range s.Kids {
+			out = append(out, float64(k.I)/4)
+		}
+		return out
+	case "boolarray":
+		return [2]bool{s.B, !s.B}
+	case "typedmap":
+		out := map[string]int64{}
+		for i, k := range s.Kids {
+			out[s.Keys[i]] = k.I
+		}
+		return out
+	case "myInt":
+		return myInt(s.I)
+	case "myUint8":
+		return myUint8(s.I)
+	case "myStr":
+		return myStr(s.S)
+	case "myBool":
+		return myBool(s.B)
+	case "myFloat":
+		return myFloat(s.F)
+	case "outer", "ptrouter":
+		o := outer{In: inner{N: int(s.I)}, Arr: [2]int8{int8(s.I), -1}, Skip: "never serialised"}
+		for _, k := range s.Kids {
+			o.In.L = append(o.In.L, myStr(k.S))
+		}
+		if !s.Nil {
+			o.P = &inner{N: 7, L: []myStr{"p"}}
+		}
+		if s.B {
+			o.M = map[string]myInt{"k": myInt(s.I)}
+			o.Any = []any{s.S, s.F}
+		}
+		if s.K == "ptrouter" {
+			return &o
+		}
+		return o
 	case "nil":
 		return nil
 	case "int":
@@ -297,7 +384,31 @@ func genValue(rt *rapid.T, depth int, nested bool) *spec {
 	if depth <= 0 {
 		return genScalar(rt, nested)
 	}
-	switch rapid.IntRange(0, 9).Draw(rt, "shape") {
+	switch rapid.IntRange(0, 12).Draw(rt, "shape") {
+	case 10:
+		// byte arrays and named byte types (by value and behind a pointer)
+		k := rapid.SampledFrom([]string{"bytearray", "emptybytearray", "namedbytearray", "ptrbytearray", "namedbytes"}).Draw(rt, "byteKind")
+		if k == "namedbytes" && rec.Exclude("C16-F4") {
+			k = "bytearray"
+		}
+		return &spec{K: k, S: rapid.SampledFrom([]string{"", "ab", "\x00\x01\xff\x7f", "wxyz"}).Draw(rt, "bytes")}
+	case 11:
+		// typed containers and named scalars
+		k := rapid.SampledFrom([]string{"strslice", "floatslice", "boolarray", "typedmap", "myInt", "myUint8", "myStr", "myBool", "myFloat"}).Draw(rt, "typedKind")
+		s := &spec{K: k, B: rapid.Bool().Draw(rt, "b"), S: rapid.SampledFrom([]string{"", "x", "ü", "12"}).Draw(rt, "s"), F: float64(rapid.IntRange(-8, 8).Draw(rt, "f")) / 4}
+		s.I = clampFor(map[string]string{"myInt": "int32", "myUint8": "uint8"}[k], int64(rapid.IntRange(-70000, 70000).Draw(rt, "i")))
+		for i := rapid.IntRange(0, 3).Draw(rt, "len"); i > 0; i-- {
+			s.Keys = append(s.Keys, fmt.Sprintf("k%d", i))
+			s.Kids = append(s.Kids, &spec{K: "int", I: int64(rapid.IntRange(-9, 9).Draw(rt, "e")), S: rapid.SampledFrom([]string{"", "a", "ä b"}).Draw(rt, "es")})
+		}
+		return s
+	case 12:
+		s := &spec{K: rapid.SampledFrom([]string{"outer", "ptrouter"}).Draw(rt, "outerKind"), I: int64(rapid.IntRange(-100, 100).Draw(rt, "n")), B: rapid.Bool().Draw(rt, "hasM"),
+			Nil: rapid.Bool().Draw(rt, "nilP"), S: rapid.SampledFrom([]string{"", "q"}).Draw(rt, "s"), F: 0.5}
+		for i := rapid.IntRange(0, 2).Draw(rt, "len"); i > 0; i-- {
+			s.Kids = append(s.Kids, &spec{K: "string", S: rapid.SampledFrom([]string{"", "l", "ö"}).Draw(rt, "ls")})
+		}
+		return s
 	case 0, 1, 2, 3:
 		return genScalar(rt, nested)
 	case 4:
@@ -334,6 +445,12 @@ func genValue(rt *rapid.T, depth int, nested bool) *spec {
 					break
 				}
 				k = k.Kids[0]
+			}
+			switch k.K {
+			case "ptrouter":
+				k.K = "outer"
+			case "ptrbytearray":
+				k.K = "bytearray"
 			}
 			s.Kids = []*spec{k}
 		}
